@@ -25,6 +25,7 @@ RULE = (
     "of a PassManager. Per case: the recorded invocations (registration, original block, offset, function) against "
     "the specification's list, in order; every marker exactly once in the output and the output bytes against the "
     "listing specification with one insertion per invocation"
+    "; jumps whose CFG edge carries no label"
 )
 ASSUMPTIONS = [
     "ANYWHERE resolves to the first potential offset (offset 0): the code documents 'always insert at the first potential offset' until bubbling exists; the property's 'on an instruction boundary not after the terminator' is checked on that choice",
